@@ -114,6 +114,16 @@ func buildGin(cs *caseState, sp godi.Provider) http.Handler {
 	g.GET(routePath(RouteNoScope), route(hCtrl))
 	s := g.Group("/s")
 	s.Use(godigin.ScopeMiddleware(sp, so...))
+	// a second, differently configured ScopeMiddleware and Handle in the same process (another
+	// route group): configuration is per instance, so a request through /s never runs these
+	var so2 []godigin.Option
+	for i := 0; i <= o.NMW; i++ {
+		pos := foreignMW + i
+		so2 = append(so2, godigin.WithMiddleware(func(sc godi.Scope, c *gin.Context) error { return look(c).onMW(pos, sc) }))
+	}
+	d := g.Group("/d")
+	d.Use(godigin.ScopeMiddleware(sp, so2...))
+	d.GET("/"+RouteCtrl, godigin.Handle(func(k *Ctrl, c *gin.Context) { c.Status(http.StatusOK) }, godigin.WithPanicRecovery(!o.Recovery)))
 	s.GET("/"+RouteCtrl, route(hCtrl))
 	s.GET("/"+RoutePlain, route(nil))
 	s.GET("/"+RouteUnreg, route(hUnreg))
